@@ -87,7 +87,7 @@ func Worker(prop string, seed int64, from, to int, tier string, out io.Writer) {
 	}
 }
 
-// caseTimeout: 20 s per case; the parent re-runs a case that timed out ALONE with JPH_CASE_TIMEOUT=240 before it
+// caseTimeout: 20 s per case; the parent re-runs a case that timed out ALONE with JPH_CASE_TIMEOUT=120 before it
 // believes the timeout (a loaded machine must not turn a slow case into a finding).
 func caseTimeout() time.Duration {
 	if v, err := strconv.Atoi(os.Getenv("JPH_CASE_TIMEOUT")); err == nil && v > 0 {
@@ -96,10 +96,13 @@ func caseTimeout() time.Duration {
 	return 20 * time.Second
 }
 
+var confirmedMu sync.Mutex
+var confirmedHangs int
+
 // retryAlone runs one case in a worker of its own with the long limit; ok=false when it still does not answer.
 func retryAlone(self, prop string, seed int64, idx int, tier string) (Record, bool) {
 	cmd := exec.Command(self, "worker", prop, strconv.FormatInt(seed, 10), strconv.Itoa(idx), strconv.Itoa(idx+1), tier)
-	cmd.Env = append(os.Environ(), "GOMEMLIMIT=2GiB", "JPH_CASE_TIMEOUT=240")
+	cmd.Env = append(os.Environ(), "GOMEMLIMIT=2GiB", "JPH_CASE_TIMEOUT=120")
 	out, _ := cmd.Output()
 	for _, line := range strings.Split(string(out), "\n") {
 		if strings.HasPrefix(line, "#") || strings.TrimSpace(line) == "" {
@@ -322,13 +325,24 @@ func RunParent(o RunOpts) Summary {
 				if cur > finished {
 					what := "worker process died"
 					if timeout {
-						what = "no answer within 20 s, nor within 240 s when run alone"
-						if rec, ok := retryAlone(o.Self, o.Prop, o.Seed, cur, o.Tier); ok {
+						what = "no answer within 20 s, nor within 120 s when run alone"
+						// after two cases that did not answer even alone the run is dealing with a real hang: later
+						// time-outs are believed at once (a hanging change must not cost 60 x 120 s)
+						confirmedMu.Lock()
+						believe := confirmedHangs >= 2
+						confirmedMu.Unlock()
+						if believe {
+							what = "no answer within 20 s (two earlier cases did not answer within 120 s when run alone either)"
+						} else if rec, ok := retryAlone(o.Self, o.Prop, o.Seed, cur, o.Tier); ok {
 							// slow under load, not stuck: use the answer
 							rec.Tags = append(rec.Tags, "run:slow-case-answered-when-run-alone")
 							recs <- rec
 							from = cur + 1
 							continue
+						} else {
+							confirmedMu.Lock()
+							confirmedHangs++
+							confirmedMu.Unlock()
 						}
 					}
 					recs <- Record{I: cur, Fatal: what + ": " + firstLines(stderrBuf.String(), 12)}
